@@ -113,7 +113,8 @@ impl Prop for C03 {
             v.extend(all_units.iter().copied().filter(|u| !si_core.contains(u)));
             v
         } else {
-            si_core.iter().take(6).copied().collect()
+            // quick: six of the SI core plus two units that carry a conversion factor
+            si_core.iter().take(6).copied().chain(["btu", "ft"]).collect()
         };
         for u in pp_units.iter() {
             for p in &syms {
